@@ -8,6 +8,7 @@ from typing import Any, Dict, List, Optional
 
 from hypothesis import strategies as st
 
+from ..common import CaseTimeout
 from ..runner import Engine
 from ..sim.gen import D
 
@@ -246,6 +247,8 @@ class QRun:
                     t.cancel()
                 try:
                     loop.run_until_complete(asyncio.wait(pend, timeout=0))
+                except CaseTimeout:
+                    raise
                 except BaseException:
                     pass
             for t in asyncio.all_tasks(loop):
